@@ -28,12 +28,12 @@ func Engine() *worker.Engine {
 				if tier == "thorough" {
 					return scale(40000)
 				}
-				return scale(1500)
+				return scale(3000)
 			}
 			if tier == "thorough" {
 				return scale(1000000)
 			}
-			return scale(20000)
+			return scale(60000)
 		},
 		Run: func(c *worker.Ctx) {
 			if raceMode() {
